@@ -78,233 +78,8 @@ STMT_SHAPES = [
 ]
 
 
-def _mentions_user(v):
-    if isinstance(v, Sym):
-        return v.tag and v.tag[0] in ("val", "item", "var")
-    if isinstance(v, App):
-        return any(_mentions_user(a) for a in v.args)
-    if isinstance(v, ListV):
-        return any(_mentions_user(a) for a in v.items)
-    if isinstance(v, DictV):
-        return any(_mentions_user(k) or _mentions_user(x) for k, x in v.items)
-    return False
-
-
-def _is_symtab(v):
-    return isinstance(v, DictV) and any(k == Const("$symtab") for k, _ in v.items)
-
-
-def canon(v):
-    """Canonical form of result/argument terms (string building, bookkeeping wrappers)."""
-    if isinstance(v, App):
-        if v.op in ("add", "fstr", "str", "format"):
-            parts = _str_parts(v)
-            if parts is not None:
-                return ("fstr", tuple(parts))
-        if v.op == "res" and v.args and v.args[0] == Const("call_func"):
-            return ("callres",)
-        return (v.op, tuple(canon(a) for a in v.args))
-    if isinstance(v, ListV):
-        return (v.kind, tuple(canon(a) for a in v.items))
-    if isinstance(v, DictV):
-        return ("dict", tuple((canon(k), canon(x)) for k, x in v.items if k != Const("$symtab")))
-    if isinstance(v, ObjV):
-        return ("obj", v.cls)
-    if isinstance(v, Sym):
-        return ("sym",) + tuple(v.tag)
-    if isinstance(v, Const):
-        return ("const", type(v.v).__name__, v.v)
-    if isinstance(v, NodeV):
-        return ("node", v.cls, v.path)
-    if isinstance(v, ClassV):
-        return ("class", v.name)
-    if isinstance(v, tuple):
-        return tuple(canon(a) for a in v)
-    return ("other", repr(v))
-
-
-def _str_parts(v):
-    """Flatten string-building terms into parts, or None when ``v`` is not a string-building term."""
-    if isinstance(v, Const) and isinstance(v.v, str):
-        return [("lit", v.v)] if v.v else []
-    if not isinstance(v, App):
-        return None
-    if v.op == "add":
-        l, r = _str_parts(v.args[0]), _str_parts(v.args[1])
-        if l is None or r is None:
-            return None
-        return _merge(l + r)
-    if v.op == "fstr":
-        out = []
-        for a in v.args:
-            p = _str_parts(a)
-            if p is None:
-                return None
-            out += p
-        return _merge(out)
-    if v.op == "str" and len(v.args) == 1:
-        p = _str_parts(v.args[0]) if isinstance(v.args[0], App) and v.args[0].op in ("fstr", "format", "add") else None
-        if p is not None:
-            return p
-        if isinstance(v.args[0], Const):
-            return [("lit", str(v.args[0].v))]
-        return [("format", canon(v.args[0]), None, -1)]
-    if v.op == "format":
-        val, spec, conv = v.args
-        if spec == NONE and conv == Const(-1) and isinstance(val, App) and val.op in ("add", "fstr", "str"):
-            inner = _str_parts(val)  # formatting a string with no spec/conversion is the identity
-            if inner is not None:
-                return inner
-        sp = None
-        if spec != NONE:
-            sp = tuple(_str_parts(spec) or []) if not isinstance(spec, Sym) else (("format", canon(spec), None, -1),)
-        return [("format", canon(val), sp, conv.v)]
-    return None
-
-
-def _merge(parts):
-    out = []
-    for p in parts:
-        if out and p[0] == "lit" and out[-1][0] == "lit":
-            out[-1] = ("lit", out[-1][1] + p[1])
-        else:
-            out.append(p)
-    return out
-
-
-def canon_events(trace, ref=False):
-    out = []
-    for e in trace:
-        k = e[0]
-        if k in ("eval", "load"):
-            out.append(e)
-        elif k == "store":
-            out.append(("store", e[1], canon(e[2])))
-        elif k == "setitem":
-            base, idx, val = e[1], e[2], e[3]
-            if _is_symtab(base):
-                name = idx.v if isinstance(idx, Const) else canon(idx)
-                out.append(("store", name, canon(val)))
-            elif ref or (_mentions_user(base) and not isinstance(base, (DictV, ListV))):
-                out.append(("setitem", canon(base), canon(idx), canon(val)))
-        elif k == "delitem":
-            base, idx = e[1], e[2]
-            if _is_symtab(base):
-                out.append(("delname", idx.v if isinstance(idx, Const) else canon(idx)))
-            elif ref or (_mentions_user(base) and not isinstance(base, (DictV, ListV))):
-                out.append(("delitem", canon(base), canon(idx)))
-        elif k == "delname":
-            out.append(e)
-        elif k in ("setattr", "delattr"):
-            out.append((k,) + tuple(canon(a) for a in e[1:]))
-        elif k == "pycall":
-            out.append(("pycall", canon(e[1]), tuple(canon(a) for a in e[2]), tuple((kk, canon(vv)) for kk, vv in e[3])))
-        elif k == "call":
-            label = e[1]
-            if label == "call_func":
-                args = e[2]
-                out.append(("pycall", canon(args[0]), tuple(canon(a) for a in args[2:]),
-                            tuple(("**" if kk.startswith("**") else kk, canon(vv)) for kk, vv in e[3])))
-            elif label in ("loopvar_scope_save", "loopvar_scope_restore", "ast_attribute_collapse", "get_names"):
-                continue
-            else:
-                out.append(("extcall", label))
-        elif k == "ast_mutation":
-            continue
-        elif k == "raise_from":
-            out.append(("raise_from", canon(e[1]), canon(e[2])))
-    return tuple(out)
-
-
-def is_extension(cfg):
-    """Paths that exist only because of pyscript's documented extensions (state variables as dotted names)."""
-    for atom, val in cfg.assume:
-        s = repr(atom)
-        if "State." in s:
-            return True
-        if "ast_attribute_collapse" in s and isinstance(atom, tuple) and len(atom) == 2 and isinstance(atom[1], App):
-            op = atom[1].op
-            # the collapse helper returned a dotted state-variable name (not None)
-            if (op == "isnot" and val) or (op == "is" and not val) or (op == "isinstance" and val):
-                return True
-    for e in cfg.trace:
-        if e[0] == "call" and (str(e[1]).startswith("State.") or str(e[1]).startswith("Function.")):
-            return True
-    return False
-
-
-def path_set(out: Out, ref=False, with_result=True):
-    paths = {}
-    for kind in ("return", "normal", "raise"):
-        for c in out.get(kind):
-            if kind == "raise":
-                exc = c.env.get("$exc")
-                res = ("raise", getattr(exc, "cls", "?"), getattr(exc, "origin", "") if getattr(exc, "cls", "") == "Exception" else "")
-            elif kind == "return" and with_result:
-                res = ("value", canon(c.env.get("$ret", NONE)))
-            else:
-                res = ("done",)
-            key = (canon_events(c.trace, ref=ref), res)
-            ext = (not ref) and is_extension(c)
-            if key not in paths or (paths[key] and not ext):
-                paths[key] = ext
-    return paths
-
-
-def fmt_path(p):
-    ev, res = p
-    parts = []
-    for e in ev:
-        if e[0] == "eval":
-            parts.append(e[1])
-        elif e[0] == "load":
-            parts.append(f"load {e[1]}")
-        elif e[0] == "store":
-            parts.append(f"store {e[1]}:={_short(e[2])}")
-        else:
-            parts.append(_short(e))
-    return "[" + ", ".join(parts) + "] -> " + _short(res)
-
-
-def _short(x, n=110):
-    s = repr(x)
-    s = re.sub(r"\('sym', 'val', '(\w+)'\)", r"v(\1)", s)
-    s = re.sub(r"\('sym', 'item', '(\w+)', (\d)\)", r"\1[\2]", s)
-    return s if len(s) <= n else s[: n - 3] + "..."
-
-
-# ---------------------------------------------------------------------------------------------
-def compare_shape(ctx, program, policy, rid, src, mode, stmt_value_irrelevant=True):
-    unit = "eval.py::AstEval"
-    try:
-        shape = shape_expr(src) if mode == "eval" else shape_stmt(src)
-    except SyntaxError as exc:  # pragma: no cover - catalogue error
-        raise AnalysisError(f"catalogue probe does not parse: {src!r}: {exc}") from exc
-    handler = f"ast_{shape.cls.lower()}"
-    unit = f"eval.py::AstEval.{handler}"
-    hout = run_handler(program, shape, policy)
-    rout = run_reference(src, mode)
-    with_result = mode == "eval"
-    H = path_set(hout, ref=False, with_result=with_result)
-    R = path_set(rout, ref=True, with_result=with_result)
-    missing = [p for p in R if p not in H]
-    extra = [p for p, ext in H.items() if p not in R and not ext]
-    what = f"handler paths == reference paths for `{src}`"
-    if not missing and not extra:
-        ctx.ok(rid, unit, what, sample={"probe": src, "paths": [fmt_path(p) for p in list(R)[:3]], "n_paths": len(R)})
-        return True
-    detail = {
-        "probe": src,
-        "reference_paths_not_realised": [fmt_path(p) for p in missing[:4]],
-        "handler_paths_not_in_reference": [fmt_path(p) for p in extra[:4]],
-    }
-    msg = (
-        f"`{src}`: interpreter handler {handler} deviates from Python: "
-        f"expected {detail['reference_paths_not_realised'][:2]} got {detail['handler_paths_not_in_reference'][:2]}"
-    )
-    node = program.units.get(unit)
-    ctx.fail(rid, unit, f"probe `{src}`", msg, node=node.node if node else None, rel="eval.py", detail=detail)
-    return False
+from ..hcompare import *  # noqa: F401,F403  (canon, path_set, compare_shape, fmt_path)
+from ..hcompare import compare_shape
 
 
 def run(ctx):
